@@ -21,6 +21,7 @@ Definition shape_of (report : string) : shape :=
   else if String.eqb report "C12" then SBag SExact                                   (* API list *)
   else if String.eqb report "C13" then                                               (* architecture nodes / edges *)
     STuple [SBag SExact; SBag SExact; SBag SExact; SBag SExact; SExact; SBag SExact; SBag SExact]
+  else if String.eqb report "C13fan" then SSortedBy 3 SExact                         (* fan table: by total, descending *)
   else if String.eqb report "C15" then                                               (* git summaries: sorted tables *)
     STuple [SSortedBy 2 SExact; SSortedBy 1 SExact; SSortedBy 1 SExact; SExact; SDeepBag]
   else if String.eqb report "C16" then SDeepBag                                      (* line counts per directory *)
@@ -36,6 +37,7 @@ Definition model_of (report : string) : sx -> sx :=
   else if String.eqb report "C11" then c11_model
   else if String.eqb report "C12" then c12_model
   else if String.eqb report "C13" then c13_model
+  else if String.eqb report "C13fan" then c13_fan_model
   else if String.eqb report "C15" then c15_model
   else if String.eqb report "C16" then c16_model
   else if String.eqb report "C18" then c18_model
